@@ -142,6 +142,36 @@ def r4_issuance(ctx):
     ctx.rules["R3w"].template = "R4 (burn) " + ctx.rules["R3w"].template
 
 
+def r5_tokens_only_from_deposits(ctx):
+    r = ctx.rule("R5", "coins in a pool's liquidity-token denomination come into being only through a settled deposit: every other transaction is balanced per denomination, "
+                       "and a transaction kind that is exempt from balancing must not be able to name a Custom denomination in its outputs", positional=False)
+    prog = ctx.prog
+    bal = ctx.body("melstf::state::applytx::check_tx_coins_balanced", r)
+    # kinds exempt from the balance check wholesale: `if tx_kind != K { .. every comparison .. }`
+    exempt = []
+    for e, c, bi in q.pick_atoms(bal, lambda c: c.startswith("Eq(") and "TxKind::" in c):
+        if not (c.startswith("Eq(") and "TxKind::" in c):
+            continue
+        kind = c.split("TxKind::")[1].split("{")[0]
+        f = force(bal, {e: 1})
+        others = [a for a in q.cmp_atoms(bal) if a[0] != (e[1] if e[0] == "not" else e) and "TxKind::" not in a[1]]
+        if others and not any(a[2] in f.reach_from(bi) - {bi} for a in others):
+            exempt.append(kind)
+    r.check(True, "exempt-kinds", "kinds exempt from balancing: %s" % sorted(set(exempt)))
+    scope = [prog.body("melstf::state::applytx::" + n) for n in ("handle_faucet_tx", "check_tx_validity", "load_relevant_coins", "create_next_state", "apply_tx_batch_impl")]
+    scope = [x for b0 in scope if b0 is not None for x in prog.all_nested(b0)]
+    for kind in sorted(set(exempt)):
+        # is there, anywhere in the validation path, a test of an output's denomination?  (a restriction on what an exempt transaction may create)
+        tests = []
+        for b0 in scope:
+            for e, c, bi in q.cmp_atoms(b0):
+                if ".outputs" in c and ".denom" in c:
+                    tests.append((b0.nname.split("::")[-1], c[:80]))
+        r.check(bool(tests), "exempt/%s/any-denomination" % kind, "outputs of %s transactions are restricted in denomination: %s" % (kind, tests[:2]),
+                "%s transactions are exempt from the balance check and nothing on the validation path looks at the denomination of their outputs: wherever they are admitted they can "
+                "create coins of any denomination, a pool's liquidity token included — tokens that no deposit backs" % kind, "%s:%s" % (bal.file, bal.line))
+
+
 def shared(ctx):
     """'liquidity tokens stay fully backed': every request counted in a batch total is settled (C15.R5: the burnt token coin is rewritten on every path; only selected
     requests touch coins), requests name their pool canonically (C15.R2) and only genuine requests are selected (C15.R1)."""
@@ -149,4 +179,4 @@ def shared(ctx):
     core.import_rules(ctx, [c15.r1_selection_atoms, c15.r2_canonical_keys, c15.r5_only_selected], "X15")
 
 
-RULES = [r1_builtins_first, r2_create_builtins, r3_no_deletion, r4_issuance, shared]
+RULES = [r1_builtins_first, r2_create_builtins, r3_no_deletion, r4_issuance, r5_tokens_only_from_deposits, shared]
